@@ -1,63 +1,17 @@
 //! Impl-side harness: reads one case per line on stdin, drives the real librqbit-utp
 //! components, prints one canonical observation line per case on stdout.
 //! The OCaml model runner (driver/modelrun.ml) prints the same format from the Coq model.
+//! Components live in comp_*.rs; each exports `dispatch(&[&str]) -> Option<String>`.
 use std::io::{BufRead, Write};
 use std::panic::{AssertUnwindSafe, catch_unwind};
-use std::time::Duration;
 
 use librqbit_utp::verif as v;
 
-fn dur_of_ns(ns: u128) -> Duration {
-    Duration::new((ns / 1_000_000_000) as u64, (ns % 1_000_000_000) as u32)
-}
+mod comp_rtte;
+mod comp_seqnr;
+mod util;
 
-fn run_seqnr(t: &[&str]) -> String {
-    let a: u16 = t[0].parse().unwrap();
-    let b: u16 = t[1].parse().unwrap();
-    let tol: u16 = t[2].parse().unwrap();
-    format!("{}", v::seq_nr_offset(a, b, tol))
-}
-
-fn run_seqnr_row(t: &[&str]) -> String {
-    let b: u16 = t[0].parse().unwrap();
-    let tol: u16 = t[1].parse().unwrap();
-    let mut s = String::with_capacity(65536 * 7);
-    for n in 0..=65535u16 {
-        if n > 0 {
-            s.push(',');
-        }
-        s.push_str(&format!("{}", v::seq_nr_offset(n, b, tol)));
-    }
-    s
-}
-
-fn run_rtte(t: &[&str]) -> String {
-    let mut e = v::RttEstimator::default();
-    let mut out: Vec<String> = Vec::new();
-    for tok in t {
-        let r = catch_unwind(AssertUnwindSafe(|| {
-            if *tok == "t" {
-                e.on_rto_timeout();
-            } else {
-                let ns: u128 = tok[1..].parse().unwrap();
-                e.sample(dur_of_ns(ns));
-            }
-            format!(
-                "{},{}",
-                e.retransmission_timeout().as_nanos(),
-                e.roundtrip_time().as_nanos()
-            )
-        }));
-        match r {
-            Ok(s) => out.push(s),
-            Err(_) => {
-                out.push("PANIC".into());
-                break;
-            }
-        }
-    }
-    out.join(" ")
-}
+const DISPATCHERS: &[fn(&[&str]) -> Option<String>] = &[comp_seqnr::dispatch, comp_rtte::dispatch];
 
 fn run_consts() -> String {
     v::constants()
@@ -72,13 +26,15 @@ fn dispatch(line: &str) -> String {
     if toks.is_empty() {
         return String::new();
     }
-    match toks[0] {
-        "seqnr" => run_seqnr(&toks[1..]),
-        "seqnr_row" => run_seqnr_row(&toks[1..]),
-        "rtte" => run_rtte(&toks[1..]),
-        "consts" => run_consts(),
-        c => format!("HARNESS-ERROR unknown component {c}"),
+    if toks[0] == "consts" {
+        return run_consts();
     }
+    for d in DISPATCHERS {
+        if let Some(s) = d(&toks) {
+            return s;
+        }
+    }
+    format!("HARNESS-ERROR unknown component {}", toks[0])
 }
 
 fn main() {
